@@ -615,6 +615,66 @@ structure Identity (m : Module) : Prop where
   defs : ∀ d₁ ∈ allDefs m, ∀ d₂ ∈ allDefs m, up d₁.uuid = up d₂.uuid → d₁ = d₂
   dts : ∀ t₁ ∈ allDataTypes m, ∀ t₂ ∈ allDataTypes m, up t₁.uuid = up t₂.uuid → t₁ = t₂
 
+/-! ## vocabulary of the property statements -/
+
+/-- `f.Contains r`: `r` is one of the folder's requirements or contained in one of its sub-folders -/
+inductive Folder.Contains : Folder → Req → Prop
+  | direct {reqs : List Req} {fs : List Folder} {r : Req} : r ∈ reqs → Folder.Contains (.mk reqs fs) r
+  | nested {reqs : List Req} {fs : List Folder} {f : Folder} {r : Req} :
+      f ∈ fs → Folder.Contains f r → Folder.Contains (.mk reqs fs) r
+
+def Module.Contains (m : Module) (r : Req) : Prop :=
+  r ∈ m.reqs ∨ ∃ f ∈ m.folders, f.Contains r
+
+/-- reading an `ATTRIBUTE-VALUE-<kind>` back (what a ReqIF consumer sees) -/
+def Value.decode (k : Kind) (tv : Option Str) (refs : List Str) : Option Value :=
+  match k, tv with
+  | .boolean, some s => if s = "true".toList then some (.bool true) else if s = "false".toList then some (.bool false) else none
+  | .integer, some s => (String.ofList s).toInt?.map .int
+  | .string, some s => some (.string s)
+  | .date, some s => some (.date (some s))
+  | .real, some s => if s = "Infinity".toList then some (.real .posInf)
+      else if s = "-Infinity".toList then some (.real .negInf) else some (.real (.fin s))
+  | .enumeration, none => some (.enum refs)
+  | _, _ => none
+
+/-- values whose export is not a placeholder: a date is present; `str(float)` is not an infinity literal -/
+def Value.Proper : Value → Prop
+  | .date none => False
+  | .real (.fin s) => s ≠ "Infinity".toList ∧ s ≠ "-Infinity".toList
+  | _ => True
+
+/-- the value with the (case-insensitive) enumeration uuids upper-cased, as identifiers are -/
+def Value.upper : Value → Value
+  | .enum vs => .enum (vs.map up)
+  | v => v
+
+def hexDash (c : Char) : Bool := c.isDigit || ('A' ≤ c && c ≤ 'F') || c == '-'
+
+/-- upper-cased uuid text: hexadecimal digits and dashes -/
+def UuidLike (s : Str) : Prop := ∀ c ∈ s, hexDash c = true
+
+def OptUuidLike (o : Option Str) : Prop := ∀ s, o = some s → UuidLike s
+
+def Ident.Shaped : Ident → Prop
+  | .obj u => UuidLike u
+  | .hier u => UuidLike u
+  | .datatype dt _ => OptUuidLike dt
+  | .attrDef rt ad _ => OptUuidLike rt ∧ OptUuidLike ad
+  | .stdAttr rt _ => OptUuidLike rt
+  | .stdSpecAttr mt _ => OptUuidLike mt
+  | _ => True
+
+/-- every uuid the exporter reads is (after upper-casing) hexadecimal digits and dashes -/
+structure UuidShaped (m : Module) : Prop where
+  model : UuidLike (up m.modelUuid)
+  module : UuidLike (up m.uuid)
+  moduleType : ∀ t, m.type = some t → UuidLike (up t.uuid)
+  req : ∀ r ∈ m.dfs, UuidLike (up r.uuid)
+  reqType : ∀ r ∈ m.dfs, ∀ t, r.type = some t → UuidLike (up t.uuid)
+  defn : ∀ d ∈ allDefs m, UuidLike (up d.uuid)
+  dataType : ∀ t ∈ allDataTypes m, UuidLike (up t.uuid) ∧ ∀ v ∈ t.values, UuidLike (up v.uuid)
+
 /-! ## `export_module`: where the bytes go -/
 
 inductive Target
